@@ -30,11 +30,11 @@ def run_one(suite, name, edits, root):
     r = subprocess.run([os.path.join(HERE, cfg["runner"]), os.path.join(d, "repo"), os.path.join(d, "work")],
                        stdout=subprocess.PIPE, stderr=subprocess.STDOUT, universal_newlines=True)
     open(os.path.join(d, "log.txt"), "w").write(r.stdout)
-    lost = [l for l in r.stdout.splitlines() if l.startswith("LOST:")]
+    lost = [l for l in r.stdout.splitlines() if (l.startswith("LOST:") or l.startswith("LOST "))]
     failed = [l.split()[1] for l in r.stdout.splitlines() if l.startswith("FAILED ") or l.startswith("OPEN-ASSUMPTIONS ")]
     proved = [l.split()[1] for l in r.stdout.splitlines() if l.startswith("PROVED ")]
     if lost:
-        tr, pr, got = "LOST: " + lost[0].split(": ", 2)[-1][:70], "-", "lost"
+        tr, pr, got = "LOST: " + lost[0].split(": ", 1)[-1][:70], "-", "lost"
     elif r.returncode == 0:
         tr, pr, got = "ok", "all %d proved" % len(proved), "pass"
     elif failed:
